@@ -117,12 +117,16 @@ Inductive iprim : option evid -> state -> state -> Prop :=
 Definition popped (m : entry) (rest : list entry) (s : state) : state :=
   upd_event (e_ev m) (ev_set_cbs None) (pop_state m rest s).
 
+(* o is an operand of c (if c is a condition at all) *)
+Definition opnd (s : state) (c o : evid) : Prop :=
+  forall cev all ops n, get_event c s = Some cev -> kind cev = KCond all ops n -> In o ops.
+
 (* all primitives: what program code and process resumption do ([iprim]), plus the three things only the
    kernel's step does: pop an event, run a _check callback of the popped event, run _build_value *)
 Inductive prim : option evid -> state -> state -> Prop :=
 | p_inner x s s' : iprim x s s' -> prim x s s'
 | p_pop m rest s : pop_min (agenda s) = Some (m, rest) -> prim None s (popped m rest s)
-| p_check c o oev s : get_event o s = Some oev -> cbs oev = None -> prim None s (cond_check c o s)
+| p_check c o oev s : get_event o s = Some oev -> cbs oev = None -> opnd s c o -> prim None s (cond_check c o s)
 | p_build c s : prim None s (fst (cond_build c s)).
 
 Definition lab (x : option evid) : list evid := match x with Some e => [e] | None => [] end.
@@ -708,7 +712,7 @@ Proof. intros [G _] (ev & H & C). destruct (G _ _ H) as (ev' & H' & _ & L & _). 
 Inductive estep (codes : list prog) : list evid -> state -> state -> Prop :=
 | es_x X s s' : xtrace codes X s s' -> estep codes X s s'
 | es_pop m rest s : pop_min (agenda s) = Some (m, rest) -> estep codes [] s (popped m rest s)
-| es_check c o oev s : get_event o s = Some oev -> cbs oev = None -> estep codes [] s (cond_check c o s)
+| es_check c o oev s : get_event o s = Some oev -> cbs oev = None -> opnd s c o -> estep codes [] s (cond_check c o s)
 | es_build c s : estep codes [] s (fst (cond_build c s)).
 
 Inductive etrace (codes : list prog) : list evid -> state -> state -> Prop :=
@@ -733,7 +737,7 @@ Proof. intros [X H]. eapply esteps_one, es_x, H. Qed.
 
 Lemma estep_ptrace codes X s s' : estep codes X s s' -> ptrace X s s'.
 Proof.
-  intros [X0 s0 s0' H|m rest s0 H|c o oev s0 H1 H2|c s0].
+  intros [X0 s0 s0' H|m rest s0 H|c o oev s0 H1 H2 H3|c s0].
   - eapply xtrace_ptrace, H.
   - apply (@pt_one prim None), p_pop, H.
   - apply (@pt_one prim None). eapply p_check; eassumption.
@@ -745,28 +749,6 @@ Proof. induction 1 as [|X1 X2 s s1 s2 P T IH]; [constructor|]. eapply pt_app; [e
 
 Lemma esteps_steps codes s s' : esteps codes s s' -> steps s s'.
 Proof. intros [X H]. exists X. eapply etrace_ptrace, H. Qed.
-
-Lemma es_run_cb codes fuel e c s :
-  procs_wf s -> processed_in e s -> esteps codes s (fst (run_cb fuel codes e c s)).
-Proof.
-  intros W (ev & He & Ce). destruct c; cbn [run_cb fst].
-  - apply esteps_x, xs_resume_proc, W.
-  - eapply esteps_one, es_check; eassumption.
-  - eapply esteps_one, es_build.
-  - apply esteps_x, xs_do_interruption, W.
-  - rewrite stop_cb_state. apply esteps_refl.
-  - apply esteps_x, xsteps_prim, p_frame. repeat split.
-Qed.
-
-Lemma es_run_callbacks codes fuel e l : forall s,
-  procs_wf s -> processed_in e s -> esteps codes s (fst (run_callbacks fuel codes e l s)).
-Proof.
-  induction l as [|c t IH]; intros s W Pe; cbn [run_callbacks fst]; [apply esteps_refl|].
-  pose proof (es_run_cb codes fuel e c s W Pe) as X. destruct (run_cb fuel codes e c s) as [s1 r]. cbn [fst] in X.
-  destruct r; try exact X. eapply esteps_trans; [exact X|]. apply IH.
-  - eapply steps_procs_wf; [eapply esteps_steps, X|exact W].
-  - eapply grows_processed; [eapply steps_grows, esteps_steps, X|exact Pe].
-Qed.
 
 Lemma upd_nth_id {A} (f : A -> A) n l : (forall x, nth_error l n = Some x -> f x = x) -> upd_nth n f l = l.
 Proof.
@@ -811,17 +793,6 @@ Proof.
   intros H. exists (ev_set_cbs None ev). split; [|reflexivity]. unfold popped. apply get_upd_same. exact H.
 Qed.
 
-Lemma es_step codes fuel s s' r : procs_wf s -> step fuel codes s = (s', r) -> esteps codes s s'.
-Proof.
-  intros W H. apply step_unfold in H. destruct H as [(_ & -> & _)|(m & rest & Pm & H)]; [apply esteps_refl|].
-  assert (P1 : esteps codes s (popped m rest s)) by (eapply esteps_one, es_pop, Pm).
-  destruct H as [(_ & -> & _)|[(ev & _ & _ & -> & _)|(ev & l & r2 & He & Cl & R & _)]]; try exact P1.
-  eapply esteps_trans; [exact P1|].
-  pose proof (es_run_callbacks codes fuel (e_ev m) l (popped m rest s)) as X. rewrite R in X. apply X.
-  - eapply steps_procs_wf; [eapply esteps_steps, P1|exact W].
-  - eapply popped_processed, He.
-Qed.
-
 Lemma xs_run_prelude codes u s s1 : run_prelude u s = inr s1 -> xsteps codes s s1.
 Proof.
   destruct u as [|t|e]; cbn [run_prelude].
@@ -843,22 +814,6 @@ Proof.
     destruct (new_event _ s); discriminate.
   - destruct (get_event e s) as [ev|]; [|intros H; injection H as <- _; reflexivity].
     destruct (is_processed ev); [intros H; injection H as <- _; reflexivity|discriminate].
-Qed.
-
-Lemma es_run_loop codes fuel u n : forall s, procs_wf s -> esteps codes s (fst (run_loop n fuel codes u s)).
-Proof.
-  induction n as [|n IH]; intros s W; cbn [run_loop fst]; [apply esteps_refl|].
-  destruct (step fuel codes s) as [s1 r] eqn:S. pose proof (es_step codes fuel s s1 r W S) as X.
-  destruct r; try exact X. eapply esteps_trans; [exact X|]. apply IH.
-  eapply steps_procs_wf; [eapply esteps_steps, X|exact W].
-Qed.
-
-Lemma es_run codes fuel u s : procs_wf s -> esteps codes s (fst (run fuel codes u s)).
-Proof.
-  intros W. unfold run. destruct (run_prelude u s) as [[s1 r]|s1] eqn:P.
-  - apply run_prelude_inl in P. subst s1. apply esteps_refl.
-  - pose proof (xs_run_prelude codes u s s1 P) as X. eapply esteps_trans; [apply esteps_x, X|]. apply es_run_loop.
-    eapply steps_procs_wf; [eapply xsteps_steps, X|exact W].
 Qed.
 
 (* ------------------------------------------------------------------------------------------------ *)
@@ -884,8 +839,3 @@ Proof. intros (t0 & H) (X' & H'). exists X', t0. eapply et_app; eassumption. Qed
 Lemma reach_exec_top {A} codes X (f : frag A) s : reach codes X s -> exists X', reach codes (X ++ X') (fst (exec_top codes f s)).
 Proof. intros R. eapply reach_esteps; [exact R|apply esteps_x, xs_run_frag]. Qed.
 
-Lemma reach_step codes X fuel s s' r : reach codes X s -> step fuel codes s = (s', r) -> exists X', reach codes (X ++ X') s'.
-Proof. intros R H. eapply reach_esteps; [exact R|]. eapply es_step; [eapply reach_procs_wf, R|exact H]. Qed.
-
-Lemma reach_run codes X fuel u s : reach codes X s -> exists X', reach codes (X ++ X') (fst (run fuel codes u s)).
-Proof. intros R. eapply reach_esteps; [exact R|]. apply es_run. eapply reach_procs_wf, R. Qed.
